@@ -1,5 +1,6 @@
 mod density;
 mod record;
+mod record_sampler;
 mod replay_nuts;
 
 fn main() {
@@ -9,6 +10,7 @@ fn main() {
     let code = match cmd {
         "replay-nuts" => replay_nuts::main(rest),
         "record-chains" => record::main(rest),
+        "record-sampler" => record_sampler::main(rest),
         _ => {
             eprintln!("usage: vh <replay-nuts|...> args");
             2
